@@ -9,6 +9,7 @@ For a generated base program B = prefix + suffix and an observer O inserted at p
     before and after it are read at callback time).
 """
 import copy
+import decimal
 import os
 
 from vlib import boot, dsl, gen, iolab, lab
@@ -135,6 +136,22 @@ def run_case(case):
     cov = {'observer_x_discarder_x_pos': {}}
     viol = []
     tables = dsl.initial_tables(rng, sizes=(0, 1, 3, 7, 100, 101), typed_extra=False)
+    if boot.rng(case['seed'], 'C05', 'twins', case['idx']).random() < 0.25:
+        # cells that compare equal without being the same cell: 2.5 / 2.50, one instant under two UTC offsets
+        import datetime
+        tz = datetime.timezone
+        tw_n = [decimal.Decimal('2.5'), decimal.Decimal('2.50'), decimal.Decimal('2.500'), decimal.Decimal('1E+1'),
+                decimal.Decimal('10')]
+        tw_t = [datetime.datetime(2020, 6, 1, 12, 0, tzinfo=tz.utc),
+                datetime.datetime(2020, 6, 1, 14, 0, tzinfo=tz(datetime.timedelta(hours=2))),
+                datetime.datetime(2020, 6, 1, 3, 0, tzinfo=tz(datetime.timedelta(hours=-9)))]
+        for t_ in tables:
+            if t_.get('kind') == 'load' and t_['rows']:
+                t_['fields'] = t_['fields'] + [['tw_n', 'number'], ['tw_t', 'datetime']]
+                for i_, r_ in enumerate(t_['rows']):
+                    r_['tw_n'] = tw_n[i_ % len(tw_n)]
+                    r_['tw_t'] = tw_t[i_ % len(tw_t)]
+                cov.setdefault('config', {})['equal_but_not_identical_cells'] = 1
     pre_ops = ['add_field', 'rename_fields', 'add_computed_field', 'set_primary_key', 'filter_rows',
                'update_resource', 'duplicate', 'sort_rows', 'find_replace', 'set_type', 'append_load']
     n1 = rng.randint(0, 3)
@@ -226,8 +243,23 @@ def run_case(case):
         viol.append({'kind': kind_, 'mech': mech, 'msg': '%s; observer %s at %d of %s'
                      % (msg, obs_label, p, gen.render(prog, 1200)), 'program': prog, 'observer': obs_label,
                      'position': p})
+    def tail_probe(sink):
+        # the rows as they ARRIVE at the end of the pipeline (results() casts them once more on its own)
+        def tail(package):
+            yield package.pkg
+            for res in package:
+                rows_ = []
+                sink.append(rows_)
+
+                def it(res=res, rows_=rows_):
+                    for row in res:
+                        rows_.append(copy.deepcopy(row))
+                        yield row
+                yield it()
+        return tail
+    raw_base, raw_obs = [], []
     st, _ = steps(False, 'base')
-    base = lab.run(st, validate=True)
+    base = lab.run(st + [tail_probe(raw_base)], validate=True)
     if not base.ok:
         # base program itself fails (e.g. key clash): not a C05 case
         return dict(nontrivial=False, violations=[], cov=cov, counters=counters)
@@ -247,7 +279,7 @@ def run_case(case):
         return real_tabulate(rows_, headers=headers, **kw)
     prm.tabulate = tab_shim
     try:
-        with_obs = lab.run(st, validate=True)
+        with_obs = lab.run(st + [tail_probe(raw_obs)], validate=True)
     finally:
         prm.tabulate = real_tabulate
     if not with_obs.ok:
@@ -265,6 +297,36 @@ def run_case(case):
         dd = next((lab.rows_diff(a, b, 1) for a, b in zip(base.results, with_obs.results)
                    if lab.rows_diff(a, b, 1)), ['resource count'])
         add('downstream_rows', 'downstream rows change: %s' % dd[0][:400], '%s/downstream_rows' % obs_label)
+    else:
+        # ... and cell for cell as they arrive (2.5 stays 2.5, it does not become 2.50; an offset stays that offset)
+        # (validating observers - validate, the dumpers - hand on the CAST cell: both sides go through the reference caster
+        # of tableschema, cell by cell, before they are compared)
+        import tableschema
+
+        def cast_all(streams):
+            out = []
+            for rd, rows_ in zip(base.dp['resources'], streams):     # (the schema as it is WITHOUT the observer)
+                try:
+                    fl = {f.name: f for f in tableschema.Schema(rd['schema']).fields}
+                except Exception:
+                    fl = {}
+                res_ = []
+                for r_ in rows_:
+                    c_ = {}
+                    for k_, v_ in r_.items():
+                        try:
+                            c_[k_] = fl[k_].cast_value(v_) if k_ in fl else v_
+                        except Exception:
+                            c_[k_] = v_
+                    res_.append(c_)
+                out.append(res_)
+            return out
+        with lab.exact_decimals():
+            cb, co = cast_all(raw_base), cast_all(raw_obs)
+            dd = next((lab.rows_diff(a, b, 1) for a, b in zip(cb, co) if lab.rows_diff(a, b, 1)), None)
+        if dd:
+            add('downstream_rows', 'downstream rows change (as they arrive at the end of the pipeline): %s' % dd[0][:400],
+                '%s/downstream_rows_raw' % obs_label)
     # (2) completeness of what the observer captured
     exp_names = at_p.names
     exp_rows = at_p.results
@@ -326,6 +388,10 @@ def run_case(case):
                                 '(%d rows in the stream): %s: %s' % (rd['path'], len(rows), type(e).__name__, str(e)[:120]),
                                 '%s/unreadable_file' % k)
                             continue
+                        if rd.get('count_of_rows') != nfile:
+                            # complete capture includes what the dump says about itself
+                            add('dump_row_count_recorded', 'the dump of %s records count_of_rows=%r, its file holds %d rows'
+                                % (rd['name'], rd.get('count_of_rows'), nfile), '%s/recorded_row_count' % k)
                         if nfile != len(rows):
                             add('dump_rows', 'dumped file of %s holds %d rows, the stream has %d'
                                 % (rd['name'], nfile, len(rows)), '%s/row_count' % k)
